@@ -197,8 +197,9 @@ class ControlParser(ArgumentParser):
             raise SubParsersNotInitialized
         subparser_kwargs.setdefault("name", function.__name__.replace("_", "-"))
         subparser_kwargs.setdefault("prog", subparser_kwargs["name"])
-        subparser_kwargs.setdefault("help", get_first_doc_line(function))
-        subparser_kwargs.setdefault("description", subparser_kwargs["help"])
+        doc_line = get_first_doc_line(function)
+        subparser_kwargs.setdefault("help", _escape_help(doc_line))
+        subparser_kwargs.setdefault("description", doc_line)
         subparser = self._commands.add_parser(**subparser_kwargs)
         subparser.add_function_args(function, omit_params)
         return subparser
@@ -234,7 +235,8 @@ class ControlParser(ArgumentParser):
         subparser_kwargs.setdefault("prog", subparser_kwargs["name"])
         getter_help = get_first_doc_line(prop.fget)
         if prop.fset is None:
-            subparser_kwargs.setdefault("help", getter_help)
+            subparser_kwargs.setdefault("help", _escape_help(getter_help))
+            subparser_kwargs.setdefault("description", getter_help)
         else:
             subparser_kwargs.setdefault(
                 "help",
@@ -249,7 +251,10 @@ class ControlParser(ArgumentParser):
                 f"If omitted: {getter_help}"
             )
             subparser.add_function_arg(
-                param, nargs="?", default=SUPPRESS, help=setter_arg_help
+                param,
+                nargs="?",
+                default=SUPPRESS,
+                help=_escape_help(setter_arg_help),
             )
         return subparser
 
@@ -411,7 +416,9 @@ class ControlParser(ArgumentParser):
                 #       argument help text. For now, the argument help just
                 #       shows the type it will be converted to.
                 # https://github.com/daniil-berg/asyncio-taskpool/issues/3
-                self.add_function_arg(param, help=repr(param.annotation))
+                self.add_function_arg(
+                    param, help=_escape_help(repr(param.annotation))
+                )
 
 
 def _get_arg_type_wrapper(cls: Type[Any]) -> Callable[[Any], Any]:
@@ -447,6 +454,11 @@ def _get_arg_type_wrapper(cls: Type[Any]) -> Callable[[Any], Any]:
     # incorrect arguments are passed.
     wrapper.__name__ = cls.__name__
     return wrapper
+
+
+def _escape_help(text: str | None) -> str | None:
+    """Escapes `%` in a help text, which `argparse` would treat as a format."""
+    return text.replace("%", "%%") if isinstance(text, str) else text
 
 
 def _resolve_postponed_annotation(annotation: str) -> Any:
